@@ -558,8 +558,8 @@ def explore(ctx) -> Exploration:
     ncorpus = len(cases)
     scripted = scripted_cases()
     cases += scripted
-    nfree = 260 if not thorough else 1600
-    nprone = 60 if not thorough else 400
+    nfree = 520 if not thorough else 3000
+    nprone = 120 if not thorough else 700
     free = [random_program(rng, False) for _ in range(nfree)]
     prone = [random_program(rng, True) for _ in range(nprone)]
     cases += free + prone
